@@ -89,7 +89,7 @@ func c16Describe(l string, p int) string {
 	return l + "=" + c16AltNames[p]
 }
 
-var c16AltNames = []string{"conforming", "535", "non-base64 challenge", "extra challenge", "drop", "conforming reply, then the client's next write fails"}
+var c16AltNames = []string{"conforming", "535", "non-base64 challenge", "extra challenge", "drop", "conforming reply, then the client's next write fails", "empty challenge"}
 
 func c16Exec(r *vf.Run, cfg c16Cfg, c *vf.Chooser) (keys, whats []string, controlHit bool) {
 	add := func(k, w string) { keys = append(keys, k); whats = append(whats, w) }
@@ -140,7 +140,9 @@ func c16Exec(r *vf.Run, cfg c16Cfg, c *vf.Chooser) (keys, whats []string, contro
 		if ev.Line == "*" {
 			return def
 		}
-		switch c.Choose(ev.Pos(), 6) {
+		switch c.Choose(ev.Pos(), 7) {
+		case 6:
+			return refsmtp.Action{Kind: refsmtp.ActReply, Code: 334, Text: []string{""}}
 		case 5:
 			conn.BreakWrites = true
 			return def
@@ -352,7 +354,7 @@ func init() {
 	vf.Register(&vf.Check{
 		ID: "C16", Title: "authentication secrets never reach the debug log",
 		Run: func(r *vf.Run) {
-			r.SetRule("mechanism {PLAIN, LOGIN, CRAM-MD5, XOAUTH2, SCRAM-SHA-1, SCRAM-SHA-256, SCRAM-SHA-256-PLUS over real TLS} × 5 marker credentials (base64 padding 0/1/2, '='/',', Unicode, '%' format verbs) × logger {custom capturing, log.New, log.NewJSON} × {debug only, debug+WithLogAuthData as scanner control} × entry {mail.Client dial+send (configured by options, or constructed with auth-data logging on and then configured through SetLogger / SetDebugLog / SetLogAuthData(false)), smtp.Client Auth then NOOP, smtp.Client Auth, Auth again, then NOOP; each smtp.Client entry with and without a preceding Hello call} × every server script over {conforming, 535, non-base64 challenge, extra challenge, drop, transport write failure on the next client line} at every AUTH step and at the EHLO that precedes AUTH {ok, write failure afterwards, 502 with HELO fallback} up to the deviation bound; the log (format, arguments, formatted line, raw output, decoded JSON msg) is scanned for the secret, its base64/hex/url-base64 forms and the exact SASL response; distinct by (configuration, script)")
+			r.SetRule("mechanism {PLAIN, LOGIN, CRAM-MD5, XOAUTH2, SCRAM-SHA-1, SCRAM-SHA-256, SCRAM-SHA-256-PLUS over real TLS} × 5 marker credentials (base64 padding 0/1/2, '='/',', Unicode, '%' format verbs) × logger {custom capturing, log.New, log.NewJSON} × {debug only, debug+WithLogAuthData as scanner control} × entry {mail.Client dial+send (configured by options, or constructed with auth-data logging on and then configured through SetLogger / SetDebugLog / SetLogAuthData(false)), smtp.Client Auth then NOOP, smtp.Client Auth, Auth again, then NOOP; each smtp.Client entry with and without a preceding Hello call} × every server script over {conforming, 535, non-base64 challenge, extra challenge, empty challenge, drop, transport write failure on the next client line} at every AUTH step and at the EHLO that precedes AUTH {ok, write failure afterwards, 502 with HELO fallback} up to the deviation bound; the log (format, arguments, formatted line, raw output, decoded JSON msg) is scanned for the secret, its base64/hex/url-base64 forms and the exact SASL response; distinct by (configuration, script)")
 			r.Assume("user names are not secrets", "a server that echoes credentials in its own reply text is outside the alphabet")
 			bound := 3
 			if r.Thorough {
